@@ -8,4 +8,5 @@ import (
 	_ "verif/sim/engines/pvsssim"
 	_ "verif/sim/engines/signsim"
 	_ "verif/sim/engines/vsssim"
+	_ "verif/sim/engines/wire"
 )
